@@ -4,7 +4,6 @@
 from __future__ import annotations
 
 import functools
-import json
 
 from ..common import Check
 from ..lockstep import Case, lockstep, replay_case
@@ -17,16 +16,16 @@ META = {
     "construction of each helper (binary reduction tree, recursive halving, two's-complement tricks in BitVec w, "
     "SwitchValue first-match) with the documented mathematical function; correspondence of the models with the "
     "real Amaranth expressions evaluated in pysim, exhaustively at small widths and randomly up to 64 bits",
-    "level_text": "24 theorems: popcount = number of set bits; ctz/clz = index of lowest/highest set bit (width if none); "
+    "level_text": "23 theorems: popcount = number of set bits; ctz/clz = index of lowest/highest set bit (width if none); "
     "cyclic_mask bitwise characterisation; extract/clear_lowest_set_bit and the four mask_* helpers bit by bit for "
-    "every BitVec width; mod_incr = (x+1) mod m for residues; mod_add = (x+i) mod m under max_incr <= mod "
-    "(c36_mod_add_partial; the unrestricted documented contract is refuted by c36_mod_add_counterexample = finding "
-    "F11) and unconditionally for power-of-two mod; binary_tree_reduce = left fold for associative operators, hence "
+    "every BitVec width; mod_incr = (x+1) mod m for residues; mod_add = (x+i) mod m for every residue and every "
+    "incr <= max_incr (c36_mod_add, unconditional since the repair of F11 in commit 656ad56; the old witness is a "
+    "regression case) and for every operand when mod is a power of two; binary_tree_reduce = left fold for associative operators, hence "
     "sum/or/and/min/max_value; switch_value = first matching case, mux",
     "level_note": "trusted: Lean kernel, axioms propext/Classical.choice/Quot.sound; Amaranth operator semantics "
     "(widening +, signed negation, slicing, SwitchValue first match) and pysim; the harness glue (number <-> bit "
     "list). Not modelled: string (wildcard) switch patterns, enum keys, signed operands, zero-width values; "
-    "mod_incr/mod_add are specified on residues sig < mod only.",
+    "mod_incr/mod_add are specified on residues sig < mod only (for a non-power-of-two mod).",
 }
 
 UNARY = ["popcount", "ctz", "clz", "extract", "clear", "mfrom", "mafter", "muntil", "mbefore"]
@@ -216,7 +215,7 @@ def in_domain(f: dict) -> bool:
     """Region where the (unconditional or documented) theorems apply."""
     if f["op"] == "modadd":
         m, mi, x, i = int(f["m"]), int(f["mi"]), int(f["x"]), int(f["i"])
-        return _pow2(m) or (x < m and i <= mi and mi <= m)
+        return _pow2(m) or (x < m and i <= mi)
     if f["op"] == "modincr":
         return _pow2(int(f["m"])) or int(f["x"]) < int(f["m"])
     if f["op"] == "cmask":
@@ -348,23 +347,19 @@ def gen_cases(ctx: Check) -> list[Case]:
         xs = {0, 1, m - 1, m - 2} | {rng.randrange(m) for _ in range(40)}
         cases += _cases({"g": "modincr", "m": m, "xw": max(1, (m - 1).bit_length())}, [f"op=modincr m={m} x={x}" for x in sorted(xs) if 0 <= x < m], "random")
 
-    # ---- mod_add inside the region of c36_mod_add_partial (max_incr <= mod) or c36_mod_add_pow2
+    # ---- mod_add: every residue and every incr <= max_incr; max_incr below, at and beyond mod (several wraps)
     for m in ctx.pick(range(1, 10), range(1, 20)):
-        for mi in range(0, m + 1):
+        for mi in list(range(0, m + 3)) + [2 * m, 2 * m + 1, 3 * m + 1]:
             d = modadd_desc(m, mi)
             cases += _cases(d, modadd_ops(d, [(x, i) for x in range(m) for i in range(mi + 1)]), "exhaustive")
-        if _pow2(m):
-            for mi in (m + 1, 2 * m + 1, 3 * m):
-                d = modadd_desc(m, mi)
-                cases += _cases(d, modadd_ops(d, [(x, i) for x in range(m) for i in range(mi + 1)]), "exhaustive")
-    for _ in range(ctx.pick(10, 80)):
-        m = rng.choice([rng.randrange(10, 3000), 1 << rng.randrange(4, 20)])
-        mi = rng.randrange(1, min(m, 40) + 1)
+    for _ in range(ctx.pick(14, 100)):
+        m = rng.choice([rng.randrange(10, 3000), rng.randrange(3, 30), 1 << rng.randrange(4, 20)])
+        mi = rng.randrange(1, 41)
         d = modadd_desc(m, mi)
         pairs = {(m - 1, mi), (m - 1, 1), (0, mi), (m - mi, mi), (max(0, m - mi - 1), mi)}
         pairs |= {(rng.randrange(m), rng.randrange(mi + 1)) for _ in range(60)}
         pairs |= {(m - 1 - rng.randrange(min(m, mi + 1)), rng.randrange(mi + 1)) for _ in range(60)}
-        cases += _cases(d, modadd_ops(d, sorted(pairs)), "random")
+        cases += _cases(d, modadd_ops(d, sorted(p for p in pairs if 0 <= p[0] < m and 0 <= p[1] <= mi)), "random")
 
     # ---- sum/or/and/min/max_value: all value tuples while w*k is small; random for many / wide values
     import itertools
@@ -447,48 +442,30 @@ def more_cases(case: Case, rng):
 
 
 # --------------------------------------------------------------------------- findings
-F11_WITNESS = {
-    "cfg": "cfg g=modadd m=3 mi=4 xw=2 iw=3",
-    "ops": ["op=modadd m=3 mi=4 x=2 i=4"],
-    "desc": {"g": "modadd", "m": 3, "mi": 4, "xw": 2, "iw": 3},
-}
+# F11 (mod_add with a non-power-of-two mod < max_incr), repaired in /repo commit 656ad56: regression witness
+F11_WITNESS = {"cfg": "cfg g=modadd m=3 mi=4 xw=2 iw=3", "ops": ["op=modadd m=3 mi=4 x=2 i=4"]}
+
+
+def desc_of_cfg(cfg: str) -> dict:
+    """inverse of `_cfg` (a witness may carry only the cfg line)"""
+    d: dict = {}
+    for k, v in kv(cfg).items():
+        if k == "keys":
+            d[k] = [None if x == "d" else (ints(x) if "," in x else int(x)) for x in v.split("/")]
+        else:
+            d[k] = int(v) if v.lstrip("-").isdigit() else v
+    return d
 
 
 def replay_witness(w: dict):
-    """a finding witness: the documented contract (incr <= max_incr, sig < mod) evaluated on the real code"""
-    case = Case(w["cfg"], list(w["ops"]), w.get("desc", {}), "witness")
+    """a finding / regression witness: the documented function evaluated on the real code"""
+    case = Case(w["cfg"], list(w["ops"]), w.get("desc") or desc_of_cfg(w["cfg"]), "witness")
     out = impl(case)
     for line, o in zip(case.ops, out[1:]):
         exp = reference(kv(line))
         if o != f"r={exp}":
             return f"{line}: implementation returned {o}, documented function gives {exp}"
     return None
-
-
-def outside_region(ctx: Check):
-    """mod_add with a non-power-of-two mod < max_incr (excluded from generation; F11).  Informational only:
-    model and implementation are compared there, no property claim, never an alarm."""
-    cases = []
-    for m, mi in [(3, 4), (3, 7), (5, 6), (5, 11), (6, 8), (7, 9)]:
-        d = modadd_desc(m, mi)
-        cases += _cases(d, modadd_ops(d, [(x, i) for x in range(m) for i in range(mi + 1)]), "outside")
-    lines, outs = [], []
-    for c in cases:
-        outs += impl(c)
-        lines += c.lines()
-    model = ctx.lean_batch("C36", lines)
-    agree = sum(1 for a, b in zip(outs, model) if a == b)
-    wrong = 0
-    for c in cases:
-        for line, o in zip(c.ops, impl(c)[1:]):
-            wrong += o != f"r={reference(kv(line))}"
-    ctx.count("outside_region_lines", len(lines))
-    ctx.count("outside_region_model_agrees", agree)
-    ctx.count("outside_region_impl_differs_from_documented", wrong)
-    ctx.note(
-        f"mod_add outside max_incr <= mod (non-power-of-two mod): {len(lines)} lines, model = implementation on {agree}, "
-        f"implementation differs from (sig+incr) % mod on {wrong} inputs (finding F11; excluded from generation)"
-    )
 
 
 # --------------------------------------------------------------------------- entry points
@@ -504,8 +481,8 @@ def run(ctx: Check):
     for c in cases:
         for line in c.ops:
             ctx.count("op_" + line.split()[0][3:])
+    cases.insert(0, Case(F11_WITNESS["cfg"], list(F11_WITNESS["ops"]), desc_of_cfg(F11_WITNESS["cfg"]), "directed"))
     lockstep(ctx, "bits", "C36", cases, impl, monitor, more_cases, nontrivial, procs=ctx.pick(4, None))
-    outside_region(ctx)
     ctx.exhaustive = False
     ctx.note("exhaustive part: every input of every helper at widths 1..%d" % ctx.pick(6, 8))
 
